@@ -37,13 +37,13 @@ theorem C06_ref (defs : K → St → St × Goal St K) (pf M n : Nat) (g : Goal S
 /-- Same multiset as depth-first search of the same program: `evalRef` does not distinguish the two
     search modes, so the interleaving answers are a permutation of the depth-first ones. -/
 theorem C06_same_as_dfs (defs : K → St → St × Goal St K) (pf M n : Nat) (g gd : Goal St K) (a : St) (xs : List St)
-    (hd : DfsG defs gd) (h : evalRef defs n g a = some xs) (h' : evalRef defs n gd a = some xs) :
+    (hD : DfsDefs defs) (hd : DfsG defs gd) (h : evalRef defs n g a = some xs) (h' : evalRef defs n gd a = some xs) :
     ∃ k k' ys, drainF (solveAt defs pf (M + 1)) k (solveAt defs pf (M + 1) g a) = some ys ∧
       drainF (solveAt defs pf (M + 1)) k' (solveAt defs pf (M + 1) gd a) = some xs ∧ xs.Perm ys := by
   obtain ⟨k, ys, h1, p1⟩ := C06_ref defs pf M n g a xs h
-  have hA := ref_dfs defs pf M n gd a xs hd h' M
+  have hA := ref_dfs defs pf M hD n gd a xs hd h' M
   obtain ⟨k', h2⟩ := drain_dfs defs _ (topOK_solveAt defs pf M)
-    (fun g a hg => solveAt_dfs defs pf (M + 1) g a hg) (solveAt_dfs defs pf (M + 1) gd a hd) hA
+    (fun g a hg => solveAt_dfs defs hD pf (M + 1) g a hg) (solveAt_dfs defs hD pf (M + 1) gd a hd) hA
   exact ⟨k, k', ys, h1, h2, p1⟩
 
 /-- No invention, arbitrary (infinite, diverging) streams: whatever `next` returns is an answer of the
